@@ -306,7 +306,7 @@ def _adds_issue(F, key):
 
 def rule_counters(F, rep, rid):
     """Absolute uses of a service's own issue counters."""
-    from engines import receiver
+    from engines import receiver, single_def
     rep.rule(rid, 'a service decides something from the ABSOLUTE value of its own issue counters (errorCount()/issueCount()/... compared with a literal) only if every public entry point that leads there clears the issue list first '
                   '(removeAllIssues() dominates the way in): the Printer keeps its issues across printModel calls, so there the counters may only be used as differences around a call; `errorCount() == 0` would make what is printed depend on '
                   'what an earlier call reported')
@@ -325,10 +325,30 @@ def rule_counters(F, rep, rid):
             own = r is None or r.get('k') in ('This', 'NoObj') or rt in ('this', 'm' + svc, 'm%s->' % svc) or rt.startswith('m' + svc)
             if not own:
                 continue
-            # is the value compared with a literal?
+            # is the value compared with a literal?  (directly, or after it was put into a local that is defined once)
             cmp_ = None
             ch = c
+            hold = None
             for a in g.ancestors(c):
+                if a.get('k') in ('Paren', 'Cast', 'Temp'):
+                    continue
+                if a.get('k') == 'Var' and a.get('c') and single_def(g, a.get('d')) is not None:
+                    hold = a
+                break
+            if hold is not None:
+                for u in g.walk():
+                    if u.get('k') == 'Ref' and u.get('d') == hold.get('d'):
+                        pa = g.parent(u)
+                        while pa is not None and pa.get('k') in ('Paren', 'Cast'):
+                            pa = g.parent(pa)
+                        op = (pa or {}).get('op') or (pa or {}).get('opc')
+                        if pa is not None and pa.get('k') in ('Bin', 'Call') and op in ('==', '!=', '<', '>', '<=', '>=') and len(pa.get('c', [])) == 2:
+                            other = pa['c'][1] if any(x is u for x in walk(pa['c'][0])) else pa['c'][0]
+                            while other.get('k') in ('Paren', 'Cast') and len(other.get('c', [])) == 1:
+                                other = other['c'][0]
+                            if other.get('k') == 'Int':
+                                cmp_ = pa
+            for a in ([] if cmp_ is not None else g.ancestors(c)):
                 if a.get('k') in ('Paren', 'Cast'):
                     ch = a
                     continue
